@@ -74,12 +74,18 @@ Perftrack(g) == Load("perftrack", g, PT.t)
 \* see ONE generation (the old or the new one), never a mixture
 Race(op, term) == /\ gens >= 1 /\ gens < MaxGen /\ gens' = gens + 1
                   /\ hist' = Append(hist, Ev(op, 0, gens, <<Gen(term, gens), Gen(term, gens + 1)>>))
+\* the first state read of the load meets an I/O error (descriptor limit, stale handle ...): the action may fail - loudly -
+\* or deliver the right states; it never goes on with an actor silently left without its state
+Fault(op, term) == /\ gens >= 1 /\ UNCHANGED gens
+                   /\ hist' = Append(hist, Ev(op, 0, gens, <<Gen(term, gens)>>))
+ApplyFault == Fault("apply-fault", C.a)
+ServeFault == Fault("serve-fault", C.a)
 ApplyRace == Race("apply-race", C.a)
 ServeRace == Race("serve-race", C.a)
 AnyApply == \E g \in 0..MaxGen : Apply(g)
 AnyServe == \E g \in 0..MaxGen : Serve(g)
 AnyPerftrack == \E g \in 0..MaxGen : Perftrack(g)
-Next == Train \/ AnyApply \/ AnyServe \/ AnyPerftrack \/ ApplyRace \/ ServeRace
+Next == Train \/ AnyApply \/ AnyServe \/ AnyPerftrack \/ ApplyRace \/ ServeRace \/ ApplyFault \/ ServeFault
 Spec == Init /\ [][Next]_vars
 Bound == Len(hist) <= Depth
 
